@@ -42,8 +42,25 @@ type compiler struct {
 	pending exitBlockStatment
 }
 
-// execution is the identity of one Template.Exec.
-type execution struct{ _ byte }
+// execution is the identity of one Template.Exec. It counts how deep the
+// blocks and template functions that are running in it are nested.
+type execution struct{ depth atomic.Int32 }
+
+// maxCallDepth is how deep blocks of helpers and calls of template functions
+// may be nested while a template runs (the parser has the same limit for what
+// is written down).
+const maxCallDepth = 10000
+
+func (e *execution) enter() (leave func(), err error) {
+	if e == nil {
+		return func() {}, nil
+	}
+	if e.depth.Add(1) > maxCallDepth {
+		e.depth.Add(-1)
+		return nil, fmt.Errorf("blocks and function calls nested more than %d deep", maxCallDepth)
+	}
+	return func() { e.depth.Add(-1) }, nil
+}
 
 // blockSignal is how the block of one helper call tells that call's
 // evaluator about a break or continue. Every call has its own: a stored
@@ -273,6 +290,12 @@ func (c *compiler) evalUserFunction(node *userFunction, args []ast.Expression) (
 
 		vals[i] = v
 	}
+
+	leave, err := c.exec.enter()
+	if err != nil {
+		return nil, err
+	}
+	defer leave()
 
 	octx := c.ctx
 	defer func() { c.ctx = octx }()
